@@ -1,4 +1,4 @@
-import Isotp.Proofs.NoStuck2
+import Isotp.Proofs.NoStuck3
 import Isotp.Props.C10live
 /-
   C10, second sentence — "No interleaving reaches a state in which a transfer is incomplete and no further progress is
@@ -32,21 +32,30 @@ import Isotp.Props.C10live
   * `no_stuck_state_nops`: the same in the vocabulary of the driver: any list of `NetP.NOp` made of `proc i`,
     `procTx i`, `deliver i k` (i < 2) and `tick d` with `dt ∣ d`.  This is `C10nostuck_statement` restricted to tick
     durations that are multiples of the tick of the continuation.
-  * `no_stuck_state_stmin0`: if both separation times are 0 (STmin 0 / `override_receiver_stmin = 0`), ticks of ANY
-    duration (continuation with ticks of 1 ns).
+  * `no_stuck_state_unit`, `no_stuck_state_nops_unit`: more generally the tick durations of the schedule and the tick of
+    the continuation only need a COMMON UNIT `g` larger than both separation times (ticks `k·g`, continuation `c·g`).
+  * `no_stuck_state_stmin0`: if both separation times are 0 (the peers announce STmin 0, or `override_receiver_stmin
+    = 0`) the general statement `C10nostuck_statement` holds as it stands (`StatementFor ca cb`): ticks of ANY
+    durations, any tick of the continuation (unit 1 ns).
+  * `timeouts_must_cover`: the hypothesis on the timeouts cannot be replaced by "no timeout has fired during the
+    schedule": a schedule that lets 9 of the 10 ns of N_Cr pass without an error leaves a state from which the canonical
+    continuation reports ConsecutiveFrameTimeoutError and loses A's payload (a timeout, not a deadlock).
 
-  What is missing for `C10nostuck_statement` itself: tick durations that are not multiples of `dt` while a separation
-  time is > 0.  The representation relation `Rep` of DuplexLive.lean records timer start times as multiples of `dt`
-  ("round numbers"), and the abstract transmit machine decides "STmin elapsed" by comparing round numbers; a tick
-  shorter than the separation time needs an abstract machine with real time stamps (every lemma of DuplexLive.lean about
-  TRANSMIT_CF would have to be redone).  No counterexample was found: all concrete runs we evaluated complete.
+  What is missing for `C10nostuck_statement` itself: a separation time > 0 together with tick durations that have no
+  common unit larger than it with the tick of the continuation (e.g. STmin 1 ms and ticks of 0.3 ms).  The
+  representation relation `Rep` of DuplexLive.lean records timer start times as multiples of the unit ("round numbers"),
+  and the abstract transmit machine decides "STmin elapsed" by comparing round numbers; a tick shorter than the
+  separation time needs an abstract machine with real time stamps (every lemma of DuplexLive.lean about TRANSMIT_CF and
+  everything built on `SideOk.sep` would have to be redone).  No counterexample was found: every concrete run we
+  evaluated completes.
 
-  Method (Proofs/NoStuck.lean, NoStuck2.lean): the abstract duplex machine of C10live gets its two links back (`GN`); the
+  Method (Proofs/NoStuck.lean, NoStuck2.lean, NoStuck3.lean): the abstract duplex machine of C10live gets its two links back (`GN`); the
   direction invariant `DirInv` of DuplexLive3 is kept with "in transit" = inbox ++ link (`GInv`); the steps of the
   abstract machine never look at the inbox field, so the step lemmas of DuplexLive4 transfer, the loops are redone, the
   transmit-only pass is new (`absPassTx`, `passTx_sim`); every operation preserves `GInv` and the representation `GRep`
   and does not increase the potential; one canonical round from any `GInv` state ends with empty links in a state
-  satisfying the round-synchronous invariant `NInv`, from where `abs_terminates` / `rounds_sim` of C10live apply.
+  satisfying the round-synchronous invariant `NInv`, from where `abs_terminates` / `rounds_sim` of C10live apply
+  (NoStuck3: the same with a tick of `c` units per round, via `round_ok`).
 -/
 namespace Isotp.C10nostuck
 open Isotp Isotp.State Isotp.Spec Isotp.Proofs Isotp.Lockstep Isotp.DuplexLive Isotp.NoStuck Isotp.C10live
@@ -273,25 +282,100 @@ theorem no_stuck_state_nops (ca cb : Cfg) (aa ab : Addr) (idA idB : Nat) (p q : 
   rw [e1] at h4
   exact ⟨d0, h1, h4⟩
 
-/-- **C10: no reachable state is stuck — separation time 0 on both sides, ticks of ANY duration**: if both layers have
-    to respect a separation time of 0 (`Duplex` with a tick of 1 ns says so: `effOf < 1`), every schedule of the driver
-    over the schedule space qualifies, whatever the durations of its ticks; the continuation ticks by 1 ns. -/
-theorem no_stuck_state_stmin0 (ca cb : Cfg) (aa ab : Addr) (idA idB : Nat) (p q : Bytes) (ops : List NetP.NOp)
-    (hops : ∀ op ∈ ops, IsOp op)
-    (hD : Duplex ca cb aa ab p q 1 1 1 1 1)
-    (t1 : elapsed ops + (roundsBound ca cb aa ab p q + 1) ≤ ca.tFc)
-    (t2 : elapsed ops + (roundsBound ca cb aa ab p q + 1) ≤ ca.tCf)
-    (t3 : elapsed ops + (roundsBound ca cb aa ab p q + 1) ≤ cb.tFc)
-    (t4 : elapsed ops + (roundsBound ca cb aa ab p q + 1) ≤ cb.tCf)
+/-! ## a common unit for the ticks of the schedule and of the continuation -/
+
+/-- **C10: no reachable state is stuck — the tick of the continuation is a multiple `c·dt` of the unit `dt` of the
+    schedule.** As `no_stuck_state_partial`, with canonical rounds that tick by `c·dt` (`c ≥ 1`); the timeouts cover
+    `ticks ops + (roundsBound + 1)·c` units. -/
+theorem no_stuck_state_unit (ca cb : Cfg) (aa ab : Addr) (idA idB : Nat) (p q : Bytes) (dt : Nat) (ops : List SOp)
+    (c : Nat) (hc : 1 ≤ c)
+    (hD : Duplex ca cb aa ab p q dt (ticks ops + (roundsBound ca cb aa ab p q + 1) * c)
+      (ticks ops + (roundsBound ca cb aa ab p q + 1) * c) (ticks ops + (roundsBound ca cb aa ab p q + 1) * c)
+      (ticks ops + (roundsBound ca cb aa ab p q + 1) * c))
+    (haccA : ((State.init ca aa).send { id := idA, size := p.length, src := p }).2 = none)
+    (haccB : ((State.init cb ab).send { id := idB, size := q.length, src := q }).2 = none) :
+    ∃ d0, startNet2 ca cb aa ab idA p idB q = some (d0, none, none) ∧
+      (∀ t e, Ev.err t e ∉ NetP.logOf 0 (NetP.Net.run d0 (ops.map (toNOp dt))).2) ∧
+      (∀ t e, Ev.err t e ∉ NetP.logOf 1 (NetP.Net.run d0 (ops.map (toNOp dt))).2) ∧
+      ∀ M, roundsBound ca cb aa ab p q + 1 ≤ M →
+        CompletesFrom (NetP.Net.run d0 (ops.map (toNOp dt))).1 (NetP.logOf 0 (NetP.Net.run d0 (ops.map (toNOp dt))).2)
+          (NetP.logOf 1 (NetP.Net.run d0 (ops.map (toNOp dt))).2) idA p idB q (c * dt) M := by
+  let K := ticks ops + (roundsBound ca cb aa ab p q + 1) * c
+  let SA : Side := { c := ca, a := aa, c' := cb, a' := ab, id := idA, p := p, p' := q, dt := dt, kCf := K, kFc := K }
+  have hA : SideOk SA :=
+    ⟨hD.va, hD.vb, hD.listenA, hD.rlA, hD.wfA, hD.wfB, hD.mirBA, hD.stminB, hD.p1, hD.p32, hD.q1, hD.q32, hD.qmax,
+     hD.sepAB, hD.kFcA1, hD.kCfA1, hD.tFcA, hD.tCfA⟩
+  have hB : SideOk (sideB SA idB K K) :=
+    ⟨hD.vb, hD.va, hD.listenB, hD.rlB, hD.wfB, hD.wfA, hD.mirAB, hD.stminA, hD.q1, hD.q32, hD.p1, hD.p32, hD.pmax,
+     hD.sepBA, hD.kFcB1, hD.kCfB1, hD.tFcB, hD.tCfB⟩
+  obtain ⟨d0, h1, h2, h3, -, h5⟩ := nostuck_coreC (SA := SA) (idB := idB) (kCfB := K) (kFcB := K) hA hB
+    (parOk ca cb aa ab p q K K K K hD.va hD.vb) haccA haccB ops c hc K (Nat.le_refl _) (Nat.le_refl _) (Nat.le_refl _)
+    (Nat.le_refl _) (Nat.le_refl _)
+  exact ⟨d0, h1, h2, h3, fun M hM => h5 M hM⟩
+
+/-- **… in the vocabulary of the driver**: `g` is a common unit of all tick durations of the schedule and of the tick
+    `c·g` of the continuation, larger than both separation times (`Duplex … g …`). -/
+theorem no_stuck_state_nops_unit (ca cb : Cfg) (aa ab : Addr) (idA idB : Nat) (p q : Bytes) (g c : Nat) (hc : 1 ≤ c)
+    (ops : List NetP.NOp) (hops : ∀ op ∈ ops, IsOp op) (hdiv : ∀ op ∈ ops, g ∣ dur op)
+    (hD : Duplex ca cb aa ab p q g 1 1 1 1)
+    (t1 : elapsed ops + (roundsBound ca cb aa ab p q + 1) * (c * g) ≤ ca.tFc)
+    (t2 : elapsed ops + (roundsBound ca cb aa ab p q + 1) * (c * g) ≤ ca.tCf)
+    (t3 : elapsed ops + (roundsBound ca cb aa ab p q + 1) * (c * g) ≤ cb.tFc)
+    (t4 : elapsed ops + (roundsBound ca cb aa ab p q + 1) * (c * g) ≤ cb.tCf)
     (haccA : ((State.init ca aa).send { id := idA, size := p.length, src := p }).2 = none)
     (haccB : ((State.init cb ab).send { id := idB, size := q.length, src := q }).2 = none) :
     ∃ d0, startNet2 ca cb aa ab idA p idB q = some (d0, none, none) ∧
       ∀ M, roundsBound ca cb aa ab p q + 1 ≤ M →
         CompletesFrom (NetP.Net.run d0 ops).1 (NetP.logOf 0 (NetP.Net.run d0 ops).2)
-          (NetP.logOf 1 (NetP.Net.run d0 ops).2) idA p idB q 1 M :=
-  no_stuck_state_nops ca cb aa ab idA idB p q 1 ops hops (fun op _ => Nat.one_dvd (dur op)) hD (by simpa using t1)
-    (by simpa using t2) (by simpa using t3) (by simpa using t4) haccA haccB
+          (NetP.logOf 1 (NetP.Net.run d0 ops).2) idA p idB q (c * g) M := by
+  obtain ⟨gops, e1, e2⟩ := ofNOps g ops hops hdiv
+  have hc' : (ticks gops + (roundsBound ca cb aa ab p q + 1) * c) * g =
+      elapsed ops + (roundsBound ca cb aa ab p q + 1) * (c * g) := by
+    rw [Nat.add_mul, e2, Nat.mul_assoc]
+  have hD' := duplex_cover hD (ticks gops + (roundsBound ca cb aa ab p q + 1) * c)
+    (Nat.le_trans (Nat.le_trans hc (Nat.le_mul_of_pos_left c (Nat.succ_pos _))) (Nat.le_add_left _ _))
+    (by rw [hc']; exact t1) (by rw [hc']; exact t2) (by rw [hc']; exact t3) (by rw [hc']; exact t4)
+  obtain ⟨d0, h1, -, -, h4⟩ := no_stuck_state_unit ca cb aa ab idA idB p q g gops c hc hD' haccA haccB
+  rw [e1] at h4
+  exact ⟨d0, h1, h4⟩
 
+/-- `C10nostuck_statement` for given configurations -/
+def StatementFor (ca cb : Cfg) : Prop :=
+  ∀ (aa ab : Addr) (idA idB : Nat) (p q : Bytes) (dt : Nat) (ops : List NetP.NOp),
+    (∀ op ∈ ops, IsOp op) →
+    Duplex ca cb aa ab p q dt 1 1 1 1 →
+    elapsed ops + (roundsBound ca cb aa ab p q + 1) * dt ≤ ca.tFc →
+    elapsed ops + (roundsBound ca cb aa ab p q + 1) * dt ≤ ca.tCf →
+    elapsed ops + (roundsBound ca cb aa ab p q + 1) * dt ≤ cb.tFc →
+    elapsed ops + (roundsBound ca cb aa ab p q + 1) * dt ≤ cb.tCf →
+    ((State.init ca aa).send { id := idA, size := p.length, src := p }).2 = none →
+    ((State.init cb ab).send { id := idB, size := q.length, src := q }).2 = none →
+    ∃ d0, startNet2 ca cb aa ab idA p idB q = some (d0, none, none) ∧
+      ∀ M, roundsBound ca cb aa ab p q + 1 ≤ M →
+        CompletesFrom (NetP.Net.run d0 ops).1 (NetP.logOf 0 (NetP.Net.run d0 ops).2)
+          (NetP.logOf 1 (NetP.Net.run d0 ops).2) idA p idB q dt M
+
+theorem statement_iff : C10nostuck_statement ↔ ∀ ca cb, StatementFor ca cb :=
+  ⟨fun h ca cb aa ab idA idB p q dt ops => h ca cb aa ab idA idB p q dt ops,
+   fun h ca cb aa ab idA idB p q dt ops => h ca cb aa ab idA idB p q dt ops⟩
+
+/-- **C10: no reachable state is stuck — separation time 0 on both sides: the general statement**, for ticks of ANY
+    durations in the schedule and any tick `dt ≥ 1` of the continuation: `C10nostuck_statement` holds for all
+    configurations in which both layers have to respect a separation time of 0 (the peer announces STmin 0, or
+    `override_receiver_stmin = 0`). -/
+theorem no_stuck_state_stmin0 (ca cb : Cfg) (hzA : effOf ca cb = 0) (hzB : effOf cb ca = 0) : StatementFor ca cb := by
+  intro aa ab idA idB p q dt ops hops hD t1 t2 t3 t4 haccA haccB
+  have hdt : 1 ≤ dt := by have := hD.sepAB; omega
+  have e1 : dt * 1 = dt := Nat.mul_one dt
+  have f1 := hD.tFcA; have f2 := hD.tCfA; have f3 := hD.tFcB; have f4 := hD.tCfB
+  have hD1 : Duplex ca cb aa ab p q 1 1 1 1 1 :=
+    ⟨hD.va, hD.vb, hD.listenA, hD.listenB, hD.rlA, hD.rlB, hD.wfA, hD.wfB, hD.mirAB, hD.mirBA, hD.stminA, hD.stminB,
+     hD.p1, hD.p32, hD.pmax, hD.q1, hD.q32, hD.qmax, by rw [hzA]; omega, by rw [hzB]; omega, Nat.le_refl 1, Nat.le_refl 1,
+     Nat.le_refl 1, Nat.le_refl 1, by omega, by omega, by omega, by omega⟩
+  have := no_stuck_state_nops_unit ca cb aa ab idA idB p q 1 dt hdt ops hops (fun op _ => Nat.one_dvd (dur op)) hD1
+    (by rw [e1]; exact t1) (by rw [e1]; exact t2) (by rw [e1]; exact t3) (by rw [e1]; exact t4) haccA haccB
+  rw [e1] at this
+  exact this
 
 /-! ## concrete instances (non-vacuity): the scenario of C10live — classic CAN, normal 11-bit addressing; A sends 20
     bytes (3 frames), B sends 50 bytes (8 frames) — after ADVERSARIAL schedule prefixes -/
@@ -341,19 +425,37 @@ theorem exDuplex_1 : Duplex (exC 2 1 1000000000 1000000000) (exC 3 1 1000000000 
 example := no_stuck_state_nops _ _ _ _ 1 2 _ _ 1000001 adv1N (by decide) (by decide) exDuplex_1 (by decide) (by decide)
   (by decide) (by decide) (by decide) (by decide)
 
-/-- … separation time 0 on both sides: ticks of 7 ns, 13 ns, 1 ns between the operations of `adv2` -/
+/-- … separation time 0 on both sides: ticks of 7 ns, 13 ns, 1 ns between the operations of `adv2`; the continuation
+    ticks by 5 ns -/
 def adv2N : List NetP.NOp :=
   [.procTx 1, .procTx 0, .tick 7, .deliver 0 1, .deliver 1 1, .procTx 1, .procTx 0, .proc 1, .tick 13, .proc 0,
    .deliver 1 5, .deliver 0 5, .proc 0, .procTx 1, .tick 1, .deliver 0 1, .proc 1, .deliver 0 3, .deliver 1 1]
 
 theorem exDuplex_stmin0 : Duplex (exC 0 0 1000000000 1000000000) (exC 0 0 1000000000 1000000000) exAddrA exAddrB exP exQ
-    1 1 1 1 1 :=
+    5 1 1 1 1 :=
   ⟨by decide, by decide, by decide, by decide, by decide, by decide, by decide, by decide, by decide, by decide,
    by decide, by decide, by decide, by decide, by decide, by decide, by decide, by decide, by decide, by decide,
    by decide, by decide, by decide, by decide, by decide, by decide, by decide, by decide⟩
 
-example := no_stuck_state_stmin0 _ _ _ _ 1 2 _ _ adv2N (by decide) exDuplex_stmin0 (by decide) (by decide) (by decide)
-  (by decide) (by decide) (by decide)
+example := no_stuck_state_stmin0 (exC 0 0 1000000000 1000000000) (exC 0 0 1000000000 1000000000) (by decide) (by decide)
+  exAddrA exAddrB 1 2 exP exQ 5 adv2N (by decide) exDuplex_stmin0 (by decide) (by decide) (by decide) (by decide)
+  (by decide) (by decide)
+
+/-- … a common unit: the schedule `adv1` ticks in units of 1 ms + 1 ns, the continuation by 2 units per round; the
+    default timeouts cover the 4 + 47·2 = 98 units -/
+theorem exDuplex_unit : Duplex (exC 2 1 1000000000 1000000000) (exC 3 1 1000000000 1000000000) exAddrA exAddrB exP exQ
+    1000001 (ticks adv1 + (roundsBound (exC 2 1 1000000000 1000000000) (exC 3 1 1000000000 1000000000) exAddrA exAddrB exP exQ + 1) * 2)
+      (ticks adv1 + (roundsBound (exC 2 1 1000000000 1000000000) (exC 3 1 1000000000 1000000000) exAddrA exAddrB exP exQ + 1) * 2)
+      (ticks adv1 + (roundsBound (exC 2 1 1000000000 1000000000) (exC 3 1 1000000000 1000000000) exAddrA exAddrB exP exQ + 1) * 2)
+      (ticks adv1 + (roundsBound (exC 2 1 1000000000 1000000000) (exC 3 1 1000000000 1000000000) exAddrA exAddrB exP exQ + 1) * 2) :=
+  ⟨by decide, by decide, by decide, by decide, by decide, by decide, by decide, by decide, by decide, by decide,
+   by decide, by decide, by decide, by decide, by decide, by decide, by decide, by decide, by decide, by decide,
+   by decide, by decide, by decide, by decide, by decide, by decide, by decide, by decide⟩
+
+example := no_stuck_state_unit _ _ _ _ 1 2 _ _ _ adv1 2 (by decide) exDuplex_unit (by decide) (by decide)
+
+example := no_stuck_state_nops_unit _ _ _ _ 1 2 _ _ 1000001 3 (by decide) adv1N (by decide) (by decide) exDuplex_1
+  (by decide) (by decide) (by decide) (by decide) (by decide) (by decide)
 
 /-- the abstract parameters of the scenario (3 and 8 frames, blocksizes 2 / 3, separation time > 0) -/
 def exPA : Par := { n := 3, n' := 8, bs := 2, bs' := 3, z := false, kCf := 51, kFc := 51 }
@@ -410,6 +512,42 @@ example : runAdv (exC 0 0 big big) (exC 0 0 big big) exP exQ 1 adv2 2 = okAt exP
 example : runAdv (exC 0 0 big big) (exC 0 0 big big) exP exQ 1 adv2 1 =
     some ⟨[[], [exP]], [.idle, .idle], [.waitCf, .idle], [6, 0], 1, true, true, [], []⟩ := by decide +kernel
 
+/-- the same for a schedule in the vocabulary of the driver -/
+def runAdvN (ca cb : Cfg) (p q : Bytes) (dt : Nat) (ops : List NetP.NOp) (M : Nat) : Option Summary :=
+  (startNet2 ca cb exAddrA exAddrB 1 p 2 q).bind fun d0 =>
+    (canonRounds dt M (NetP.Net.run d0.1 ops).1).map fun c =>
+      { rxQueues := c.1.layers.toList.map (·.rxQueue), txStates := c.1.layers.toList.map (·.txState),
+        rxStates := c.1.layers.toList.map (·.rxState), inboxes := c.1.layers.toList.map (·.inbox.length),
+        now := c.1.now,
+        doneA := decide (Ev.done 1 true ∈ NetP.logOf 0 (NetP.Net.run d0.1 ops).2 ++ c.2.1),
+        doneB := decide (Ev.done 2 true ∈ NetP.logOf 1 (NetP.Net.run d0.1 ops).2 ++ c.2.2),
+        errsA := errsOf (NetP.logOf 0 (NetP.Net.run d0.1 ops).2 ++ c.2.1),
+        errsB := errsOf (NetP.logOf 1 (NetP.Net.run d0.1 ops).2 ++ c.2.2) }
+
+-- `adv2N` (ticks of 7, 13 and 1 ns), then a continuation that ticks by 5 ns: two rounds complete both transfers
+example : runAdvN (exC 0 0 big big) (exC 0 0 big big) exP exQ 5 adv2N 2 = okAt exP exQ 31 := by decide +kernel
+-- `adv1N`, then a continuation that ticks by 3 units: ten rounds
+example : runAdvN (exC 2 1 big big) (exC 3 1 big big) exP exQ 3000003 adv1N 10 = okAt exP exQ 34000034 := by
+  decide +kernel
+
+/-! ### the timeouts have to cover the schedule -/
+
+/-- N_Cr = N_Bs = 10 ns on both sides (blocksize 0, STmin 0, continuation tick 1 ns). The schedule lets A send its
+    First Frame, delivers it, lets B answer, and then lets 9 ns pass: NO timeout has fired (no error event, first
+    line). But B's N_Cr timer — restarted when B sent its Flow Control — is 9 ns old, and A's first Consecutive Frame
+    reaches B only in the second round of the continuation: B reports ConsecutiveFrameTimeoutError, A's payload is lost
+    (A's request completes "successfully"). With timeouts covering the schedule and the continuation (`cover`: here
+    9 + 46 + 1 = 56 ns) this cannot happen (`no_stuck_state_partial`); third line: 56 ns. -/
+theorem timeouts_must_cover :
+    runAdvN (exC 0 0 10 10) (exC 0 0 10 10) exP exQ 1 [.procTx 0, .deliver 0 1, .proc 1, .tick 9] 0 =
+      some ⟨[[], []], [.waitFc, .waitFc], [.idle, .waitCf], [0, 0], 9, false, false, [], []⟩ ∧
+    runAdvN (exC 0 0 10 10) (exC 0 0 10 10) exP exQ 1 [.procTx 0, .deliver 0 1, .proc 1, .tick 9] 6 =
+      some ⟨[[exQ], []], [.idle, .idle], [.idle, .idle], [0, 0], 15, true, true, [],
+            [.ConsecutiveFrameTimeout, .UnexpectedConsecutiveFrame, .UnexpectedConsecutiveFrame]⟩ ∧
+    runAdvN (exC 0 0 56 56) (exC 0 0 56 56) exP exQ 1 [.procTx 0, .deliver 0 1, .proc 1, .tick 9] 6 =
+      okAt exP exQ 15 := by
+  refine ⟨?_, ?_, ?_⟩ <;> decide +kernel
+
 end Isotp.C10nostuck
 
 #print axioms Isotp.C10nostuck.no_stuck_state_work
@@ -417,4 +555,8 @@ end Isotp.C10nostuck
 #print axioms Isotp.C10nostuck.potential_never_increases
 #print axioms Isotp.C10nostuck.ofNOps
 #print axioms Isotp.C10nostuck.no_stuck_state_nops
+#print axioms Isotp.C10nostuck.no_stuck_state_unit
+#print axioms Isotp.C10nostuck.no_stuck_state_nops_unit
 #print axioms Isotp.C10nostuck.no_stuck_state_stmin0
+#print axioms Isotp.C10nostuck.statement_iff
+#print axioms Isotp.C10nostuck.timeouts_must_cover
